@@ -68,6 +68,24 @@ package registry
 //@   ensures{C11} never-dot-or-blank: forall(string(k), dom(aliases, k) ==> aliases[k] != "." && aliases[k] != "_")
 //@   ensures{C11,C15} every-named-import-of-every-file-harvested: forall(a, b, 0 <= a && a < len(syntaxTree) && 0 <= b && b < len(syntaxTree[a].Imports) && namedImport(syntaxTree[a].Imports[b]) ==> dom(aliases, trimq(syntaxTree[a].Imports[b].Path.Value)))
 
+//@ func registry.pkgInDir -> same
+//@   props C10 C18
+//@   safety C19
+//@   effect fs-read
+//@   ensures{C10} asks-the-loader-about-dir: existsEv(i, evIs(i, "call:registry.pkgInfoFromPath") && evArg(i, 0) == dir && forallEv(j, evIs(j, "call:registry.pkgInfoFromPath") ==> i == j))
+//@   ensures{C10} load-failure-means-no: forallEv(i, evIs(i, "call:registry.pkgInfoFromPath") && evRes(i, 1) != nil ==> !same)
+//@   ensures{C10} name-or-test-name: forallEv(i, evIs(i, "call:registry.pkgInfoFromPath") && evRes(i, 1) == nil ==> (same <==> (evRes(i, 0).Name == pkgName || evRes(i, 0).Name + "_test" == pkgName)))
+
+//@ func registry.findPkgPath -> path
+//@   props C10 C18
+//@   safety C19
+//@   effect fs-read
+//@   ensures{C10} default-or-source-name-is-the-source-package: pkgInputVal == "" || pkgInputVal == srcPkgName ==> path == srcPkgPath && forallEv(i, !effectful(i))
+//@   ensures{C10} other-name-one-of-three: path == srcPkgPath || path == "" || existsEv(i, evIs(i, "path/filepath.Join") && path == evRes(i))
+//@   ensures{C10} source-path-only-if-loader-says-so: pkgInputVal != "" && pkgInputVal != srcPkgName && srcPkgPath != "" && path == srcPkgPath ==> existsEv(i, evIs(i, "call:registry.pkgInDir") && evArg(i, 0) == srcPkgPath && evArg(i, 1) == pkgInputVal && evRes(i))
+//@   ensures{C10} unknown-destination-is-empty: pkgInputVal != "" && pkgInputVal != srcPkgName && forallEv(i, evIs(i, "call:registry.pkgInDir") ==> !evRes(i)) ==> path == ""
+//@ define effectful(j) = evKind(j, "fs-read") || evKind(j, "fs-write") || evKind(j, "io-write") || evKind(j, "stdout") || evKind(j, "exit")
+
 //@ func registry.New -> r, err
 //@   props C10 C18
 //@   safety C19
@@ -75,6 +93,7 @@ package registry
 //@   ensures{C19} load-error: forallEv(i, evIs(i, "call:registry.pkgInfoFromPath") && forallEv(j, j < i ==> !evIs(j, "call:registry.pkgInfoFromPath")) ==> evArg(i, 0) == srcDir && (evRes(i, 1) != nil ==> r == nil && err != nil && hasPrefix(uf("errMsg", String, err), "couldn't load source package: ")))
 //@   ensures{C17,C19} error-means-nil: err != nil ==> r == nil
 //@   ensures{C02} types-kept: err == nil ==> r.srcPkgTypes != nil
+//@   ensures{C10} source-and-destination-from-the-loaded-package: err == nil ==> existsEv(j, i, j < i && evIs(j, "call:registry.pkgInfoFromPath") && evArg(j, 0) == srcDir && evIs(i, "call:registry.findPkgPath") && evArg(i, 0) == moqPkg && evArg(i, 1) == evRes(j, 0).Name && evArg(i, 2) == evRes(j, 0).PkgPath && r.moqPkgPath == evRes(i) && r.srcPkgName == evRes(j, 0).Name && r.srcPkgTypes == evRes(j, 0).Types)
 //@   ensures{C10} fresh-registry: err == nil ==> r != nil && fresh(r) && r.imports != nil && fresh(r.imports) && forall(string(k), !dom(r.imports, k))
 //@   ensures{C11} wf: err == nil ==> wfK(r)
 
